@@ -634,11 +634,20 @@ def case_basis(spec, ctx):
         # several parameters at once
         xs = [x for x, _ in pts if a <= x <= b]
         try:
-            many = np.asarray(lb(np.array(xs)), dtype=float)
+            xs_arr = np.array(xs, dtype=float)
+            many = np.asarray(lb(xs_arr), dtype=float)
             one = np.vstack([np.asarray(lb(x), dtype=float).reshape(1, -1) for x in xs])
             ctx.mon("basis.reference")
             if many.shape != one.shape or not np.array_equal(many, one):
                 ctx.violation("LagrangeBasis.__call__", "array input differs from scalar input", {**detail, "interval": [a, b], "xis": xs})
+            # the caller's parameter array belongs to the caller: it must come back unchanged, and evaluating it again (values and
+            # derivatives, in any order) must give the same rows
+            again_d = np.asarray(lb.deriv(xs_arr, n=1), dtype=float)
+            again = np.asarray(lb(xs_arr), dtype=float)
+            if not np.array_equal(xs_arr, np.array(xs, dtype=float)):
+                ctx.violation("LagrangeBasis.__call__", "the array of parameters handed to the basis is modified in place", {**detail, "interval": [a, b], "before": xs, "after": xs_arr})
+            elif again.shape != many.shape or not np.array_equal(again, many):
+                ctx.violation("LagrangeBasis.__call__", "evaluating the same parameter array again gives different values", {**detail, "interval": [a, b], "xis": xs})
         except Exception as e:
             ctx.violation("LagrangeBasis.__call__", "raises for an array of parameters",
                           {**detail, "interval": [a, b], "exception": type(e).__name__, "message": str(e)[:200]})
